@@ -100,6 +100,11 @@ def run_case(ctx, case_seed):
                 rec.add_metadata(dict(md))
                 box.cassette.save_recording(rec)
                 saved.append((rec.id, cat, md))
+                step_h = hrng.choice([0, 0, 0, 7, 25])        # (drawn for every cassette alike)
+                if lookup_start is not None and step_h:
+                    # ... and time goes on while it records: the recordings of one store are filed under several utc days
+                    box.fake.now = box.fake.now + _dt.timedelta(hours=step_h)
+                    ctx.count('s3_clock_steps_between_saves')
                 if si == half - 1:
                     # history: listings (with filters) happen between saves, and a recording may be saved again under its id
                     # with other metadata; later listings must reflect the current store
@@ -160,6 +165,31 @@ def run_case(ctx, case_seed):
                 judge_listing(ctx, reader, got, must, may, limit, kind, w, tok_of)
                 if limit is None and not may:
                     per_cassette_tokens.setdefault(qi, {})[kind + ':' + prefix] = sorted(tok_of[r] for r in got if r in tok_of)
+            # one RecordingLookupProperties object reused for two lookups: the first lookup is created, the properties are changed
+            # for the second one, and only then the first is consumed - each lookup answers for the settings it was made with
+            if len(queries) >= 2 and saved:
+                prng = random.Random(case_seed + 123)
+                qa, qb = prng.sample(queries, 2)
+                props = RecordingLookupProperties(lookup_start, metadata=(dict(qa[1]) if qa[1] is not None else None), limit=qa[2], skip_incomplete=True)
+                w = {'case_seed': case_seed, 'cassette': kind, 'prefix': prefix, 'shared_lookup_properties': [list(qa[:3]), list(qb[:3])]}
+                try:
+                    it_a = find_matching_recording_ids(TapeRecorder(reader), qa[0], props)
+                    props.metadata = dict(qb[1]) if qb[1] is not None else None
+                    props.limit = qb[2]
+                    props.skip_incomplete = False
+                    it_b = find_matching_recording_ids(TapeRecorder(reader), qb[0], props)
+                    got_b, got_a = list(it_b), list(it_a)
+                except Exception as ex:
+                    ctx.violation('lookups sharing one properties object raised %s on %s cassette' % (type(ex).__name__, kind), w)
+                else:
+                    ctx.count('lookups_sharing_a_properties_object', 2)
+                    eff_a = dict(qa[1] or {})
+                    eff_a[INC] = [False, None]
+                    for name, got_, c_, f_, lim_ in (('first', got_a, qa[0], eff_a, qa[2]), ('second', got_b, qb[0], qb[1] or {}, qb[2])):
+                        verdicts = [(rid, ref_match(f_, md)) for rid, c, md in saved if c == c_]
+                        must = set(r for r, v in verdicts if v is True)
+                        may = set(r for r, v in verdicts if v == UNSPEC)
+                        judge_listing(ctx, reader, got_, must, may, lim_, kind, dict(w, lookup=name), tok_of)
             # two lazily evaluated lookups with different filters in flight on one cassette object, consumed alternately
             if len(queries) >= 2 and saved:
                 irng = random.Random(case_seed + 99)
